@@ -63,7 +63,7 @@ var c06encs = []c06enc{
 
 func runC06(c *vlib.Check) {
 	c.Rule = "(A) operation codes 0..65535 and {2^31-1, 2^31, 2^32-1} x {request, response} x {binary, XML, JSON}: registered codes carry the rich payload of the operation, the others an opaque structure; " +
-		"(B) object types 0..255 and 2^32-1 inside Get response / Register request / Import request / Export response, with the matching object and with a mismatching one; " +
+		"(B) object types 0..255 and 2^32-1 inside Get response / Register request / Import request / Export response (also with an Object Type attribute naming another type, and without one), with the matching object and with a mismatching one; " +
 		"(C) the 50 standard attribute names x a value of each of the 10 TTLV kinds, plus custom x-/y- and unknown names x 10 kinds. Inputs are produced by the independent generator / writers. " +
 		"(D) opaque preservation over the generic tree alphabet (every leaf class, nesting to depth 3, adjacent sibling structures, all pairs of representatives): each structure as payload of 3 unregistered operations " +
 		"(request and response) and each tree as value of 2 custom attributes, three encodings, re-encoded bytes must equal the independent generator's. distinct = distinct input documents"
@@ -246,6 +246,21 @@ func runC06(c *vlib.Check) {
 		}},
 		{"Export response", true, kmip.OperationExport, func(ot uint32, obj *refttlv.Node) *refttlv.Node {
 			return nStruct(tg("ResponsePayload"), nEnum(tg("ObjectType"), ot), nText(tg("UniqueIdentifier"), "id"), attrOT(ot), obj)
+		}, func(m any) kmip.Object {
+			return m.(*kmip.ResponseMessage).BatchItem[0].ResponsePayload.(*payloads.ExportResponsePayload).Object
+		}},
+		// the Export response names the object's type a second time, in the attribute list: the Object Type field decides
+		{"Export response whose attribute list names another object type", true, kmip.OperationExport, func(ot uint32, obj *refttlv.Node) *refttlv.Node {
+			other := uint32(kmip.ObjectTypeSecretData)
+			if ot == other {
+				other = uint32(kmip.ObjectTypeSymmetricKey)
+			}
+			return nStruct(tg("ResponsePayload"), nEnum(tg("ObjectType"), ot), nText(tg("UniqueIdentifier"), "id"), attrOT(other), obj)
+		}, func(m any) kmip.Object {
+			return m.(*kmip.ResponseMessage).BatchItem[0].ResponsePayload.(*payloads.ExportResponsePayload).Object
+		}},
+		{"Export response without Object Type attribute", true, kmip.OperationExport, func(ot uint32, obj *refttlv.Node) *refttlv.Node {
+			return nStruct(tg("ResponsePayload"), nEnum(tg("ObjectType"), ot), nText(tg("UniqueIdentifier"), "id"), obj)
 		}, func(m any) kmip.Object {
 			return m.(*kmip.ResponseMessage).BatchItem[0].ResponsePayload.(*payloads.ExportResponsePayload).Object
 		}},
